@@ -1,6 +1,8 @@
-(* C06 - for EVERY program, by an invariant that does not go through the Spec: no destructor runs more often than its object was
-   constructed, no defer more often than it was registered - at every prefix of the transcript.
-   Generic invariant lemma over the Mech executor + a counting invariant instantiated twice. *)
+(* C06 - for EVERY program (name collisions, shadowing, W objects included), by an invariant that does not
+   go through the Spec: no object identity is destroyed more often than it was constructed (this is what
+   the destructor_called guard buys), no defer runs more often than it was registered - at every prefix of
+   the transcript.  Generic invariant lemma over the Mech executor + a counting invariant instantiated
+   twice (objects: the live slots of the variable scopes; defers: the pending defer levels). *)
 From Coq Require Import List Arith Bool Lia.
 Import ListNotations.
 From Cb Require Import C06.Model C06.Prims.
@@ -9,7 +11,7 @@ From Cb Require Import C06.Model C06.Prims.
    primitives is preserved by the executor *)
 Section Inv.
 Variable P : state -> Prop.
-Hypothesis H_decl : forall k st, P st -> P (declare_obj k st).
+Hypothesis H_decl : forall x t k st, P st -> P (declare_obj x t k st).
 Hypothesis H_defer : forall k st, P st -> P (defer_stmt k st).
 Hypothesis H_mark : forall k st, P st -> P (emit [EMark k] st).
 Hypothesis H_pushd : forall st, P st -> P (push_destructor_scope st).
@@ -29,51 +31,51 @@ Proof.
 Qed.
 
 Lemma exec_inv : forall fuel p,
-  (forall it s st o st', mexec fuel p it s st = Some (o, st') -> P st -> P st') /\
-  (forall it b st o st', mexec_b fuel p it b st = Some (o, st') -> P st -> P st') /\
-  (forall n i b st o st', mloop fuel p n i b st = Some (o, st') -> P st -> P st').
+  (forall n it s st o st', mexec fuel p n it s st = Some (o, st') -> P st -> P st') /\
+  (forall n it b st o st', mexec_b fuel p n it b st = Some (o, st') -> P st -> P st') /\
+  (forall n m i b st o st', mloop fuel p n m i b st = Some (o, st') -> P st -> P st').
 Proof.
   induction fuel as [|f IH]; intros p.
   - repeat split; intros; simpl in *; discriminate.
   - destruct (IH p) as (IHs & IHb & IHl).
-    assert (CC : forall it b st o st', P st ->
-              compound_close (mexec_b f p it b (push_destructor_scope st)) = Some (o, st') -> P st').
-    { intros it b st o st' HP E. eapply compound_close_inv; [|exact E].
+    assert (CC : forall n it b st o st', P st ->
+              compound_close (mexec_b f p n it b (push_destructor_scope st)) = Some (o, st') -> P st').
+    { intros n it b st o st' HP E. eapply compound_close_inv; [|exact E].
       intros o1 st1 E1. eapply IHb; [exact E1|]. now apply H_pushd. }
     split; [|split].
-    + intros it s st o st' E HP. destruct s; simpl in E.
+    + intros n it s st o st' E HP. destruct s; simpl in E.
       * inversion E; subst; auto.
       * inversion E; subst; auto.
       * inversion E; subst; auto.
       * eapply CC; eauto.
-      * destruct (cond_true it c); [eapply CC; eauto|].
+      * destruct (cond_true n it c); [eapply CC; eauto|].
         destruct e; [inversion E; subst; auto | eapply CC; eauto].
-      * destruct (mloop f p n 0 b (push_defer_scope st)) as [[o1 st1]|] eqn:EL; [|discriminate].
+      * destruct (mloop f p n n0 0 b (push_defer_scope st)) as [[o1 st1]|] eqn:EL; [|discriminate].
         assert (P st1) by (eapply IHl; [exact EL|]; now apply H_pushf).
         destruct o1; inversion E; subst; auto.
-      * destruct (mexec_b f p None (body p f0) (push_scope st)) as [[o1 st1]|] eqn:EB; [|discriminate].
+      * destruct (mexec_b f p (Init.Nat.pred n) None (body p f0) (push_scope st)) as [[o1 st1]|] eqn:EB; [|discriminate].
         inversion E; subst. apply H_guard, H_pop. eapply IHb; [exact EB|]. now apply H_push.
       * inversion E; subst; auto.
       * inversion E; subst; auto.
       * inversion E; subst; auto.
-    + intros it b st o st' E HP. destruct b as [|s r]; simpl in E.
+    + intros n it b st o st' E HP. destruct b as [|s r]; simpl in E.
       * inversion E; subst; auto.
-      * destruct (mexec f p it s st) as [[o1 st1]|] eqn:ES; [|discriminate].
+      * destruct (mexec f p n it s st) as [[o1 st1]|] eqn:ES; [|discriminate].
         assert (P st1) by (eapply IHs; eauto).
         destruct o1; try (inversion E; subst; assumption).
         eapply IHb; eauto.
-    + intros n i b st o st' E HP. simpl in E.
-      destruct (n <=? i); [inversion E; subst; auto|].
-      destruct (compound_close (mexec_b f p (Some i) b (push_destructor_scope st))) as [[o1 st1]|] eqn:EC;
+    + intros n m i b st o st' E HP. simpl in E.
+      destruct (m <=? i); [inversion E; subst; auto|].
+      destruct (compound_close (mexec_b f p n (Some i) b (push_destructor_scope st))) as [[o1 st1]|] eqn:EC;
         [|discriminate].
       assert (P st1) by (eapply CC; eauto).
       destruct o1; try (inversion E; subst; assumption); eapply IHl; eauto.
 Qed.
 
-Lemma mrun_inv : forall fuel p ok st, P init_state -> mrun fuel p = Some (ok, st) -> P st.
+Lemma mrun_inv : forall fuel p n0 ok st, P init_state -> mrun fuel p n0 = Some (ok, st) -> P st.
 Proof.
-  intros fuel p ok st H0 E. unfold mrun in E.
-  destruct (mexec_b fuel p None (body p 0) (push_scope init_state)) as [[o1 st1]|] eqn:EB; [|discriminate].
+  intros fuel p n0 ok st H0 E. unfold mrun in E.
+  destruct (mexec_b fuel p n0 None (body p 0) (push_scope init_state)) as [[o1 st1]|] eqn:EB; [|discriminate].
   assert (P st1).
   { destruct (exec_inv fuel p) as (_ & Hb & _). eapply Hb; [exact EB|]. now apply H_push. }
   destruct o1; inversion E; subst; auto.
@@ -193,15 +195,60 @@ Lemma occ_concat_cons : forall k l r, occ k (concat (l :: r)) = occ k l + occ k 
 Proof. intros; simpl. apply occ_app. Qed.
 
 (* ------------------------------------------------------------------ objects *)
-Definition c_obj (e : event) : option nat := match e with ECtor k => Some k | _ => None end.
-Definition d_obj (e : event) : option nat := match e with EDtor k => Some k | _ => None end.
-Definition Jobj (st : state) : Prop := J c_obj d_obj (concat (dts st)) (tr st).
+(* identities only: the struct type printed by a destructor is the type of the ENTRY, the identity comes
+   from the SLOT (see Model.call_destructor); under shadowing they may belong to different declarations *)
+Definition c_obj (e : event) : option nat := match e with ECtor _ k => Some k | _ => None end.
+Definition d_obj (e : event) : option nat := match e with EDtor _ k => Some k | _ => None end.
+
+(* the identities held by slots whose destructor_called flag is still false *)
+Definition live_slot (b : name * slot) : bool := negb (snd (snd b)).
+Definition live_ids_f (F : frame) : list nat := map (fun b : name * slot => fst (snd b)) (filter live_slot F).
+Definition live_ids (Fs : list frame) : list nat := concat (map live_ids_f Fs).
+
+Definition Jobj (st : state) : Prop := J c_obj d_obj (live_ids (vars st)) (tr st).
 
 Lemma disj_obj : forall e k, d_obj e = Some k -> c_obj e = None.
 Proof. destruct e; simpl; intros; congruence. Qed.
 
 Lemma neutral_defers_obj : forall l e, In e (map EDefer l) -> c_obj e = None /\ d_obj e = None.
 Proof. intros l e H. apply in_map_iff in H. destruct H as (x & <- & _). auto. Qed.
+
+Lemma live_ids_cons : forall k F Fs, occ k (live_ids (F :: Fs)) = occ k (live_ids_f F) + occ k (live_ids Fs).
+Proof. intros. unfold live_ids; simpl. apply occ_app. Qed.
+
+Lemma live_ids_f_cons : forall k x i b F,
+  occ k (live_ids_f ((x, (i, b)) :: F)) = (if b then 0 else if Nat.eqb k i then 1 else 0) + occ k (live_ids_f F).
+Proof.
+  intros. unfold live_ids_f; simpl. unfold live_slot at 1; simpl. destruct b; simpl; auto.
+  rewrite occ_cons. reflexivity.
+Qed.
+
+Lemma live_set_flag : forall F x k, lookup F x = Some (k, false) ->
+  forall k', occ k' (live_ids_f (set_flag F x)) + (if Nat.eqb k' k then 1 else 0) = occ k' (live_ids_f F).
+Proof.
+  induction F as [|[z [i b]] F IH]; intros x k H k'; simpl in H; [discriminate|].
+  simpl. destruct (name_eqb x z).
+  - inversion H; subst. rewrite !live_ids_f_cons. lia.
+  - rewrite !live_ids_f_cons. rewrite <- (IH x k H k'). lia.
+Qed.
+
+Lemma live_mark_var : forall Fs x k, find_var Fs x = Some (k, false) ->
+  forall k', occ k' (live_ids (mark_var Fs x)) + (if Nat.eqb k' k then 1 else 0) = occ k' (live_ids Fs).
+Proof.
+  induction Fs as [|F Fs IH]; intros x k H k'; simpl in H; [discriminate|].
+  simpl. destruct (lookup F x) as [v|] eqn:E.
+  - inversion H; subst. rewrite !live_ids_cons. rewrite <- (live_set_flag F x k E k'). lia.
+  - rewrite !live_ids_cons. rewrite <- (IH x k H k'). lia.
+Qed.
+
+Lemma live_tl : forall Fs k, occ k (live_ids (tl Fs)) <= occ k (live_ids Fs).
+Proof. destruct Fs; simpl; auto. intros. rewrite live_ids_cons. lia. Qed.
+
+Lemma Jobj_stacks : forall a b a' b' c t, Jobj (mk a b c t) -> Jobj (mk a' b' c t).
+Proof. intros; exact H. Qed.
+
+Lemma Jobj_tl : forall a b c t, Jobj (mk a b c t) -> Jobj (mk a b (tl c) t).
+Proof. intros a b c t H. unfold Jobj in *; simpl in *. eapply J_weaken; [exact H|]. apply live_tl. Qed.
 
 Lemma Jobj_pop_defer : forall st, Jobj st -> Jobj (pop_defer_scope st).
 Proof.
@@ -210,32 +257,77 @@ Proof.
   apply J_neutral; auto. apply neutral_defers_obj.
 Qed.
 
+Lemma Jobj_call_destructor : forall x t st, Jobj st -> Jobj (call_destructor x t st).
+Proof.
+  intros x t [a b c t0] H. rewrite call_destructor_eq; simpl.
+  destruct (find_var c x) as [[k [|]]|] eqn:E; auto.
+  unfold Jobj in *; simpl in *.
+  eapply J_release with (dev := EDtor t) (m := [k]); eauto using disj_obj.
+  intros k'. rewrite occ_cons, occ_nil. rewrite <- (live_mark_var c x k E k'). lia.
+Qed.
+
+Lemma Jobj_fold : forall m st, Jobj st ->
+  Jobj (fold_left (fun s e => call_destructor (fst e) (snd e) s) m st).
+Proof. induction m; intros; simpl; auto. apply IHm. now apply Jobj_call_destructor. Qed.
+
+Lemma Jobj_run_destructors : forall l st, Jobj st -> Jobj (run_destructors l st).
+Proof. intros. apply Jobj_fold; auto. Qed.
+
 Lemma Jobj_pop_destructor : forall st, Jobj st -> Jobj (pop_destructor_scope st).
 Proof.
   intros st H. apply Jobj_pop_defer in H. unfold pop_destructor_scope.
   destruct (pop_defer_scope st) as [a b c t]; simpl.
   destruct b as [|l r]; [exact H|].
-  rewrite run_destructors_eq. unfold Jobj in *; simpl in *.
-  eapply J_release with (dev := EDtor); eauto using disj_obj.
-  intros k. rewrite occ_rev, occ_app. lia.
+  apply Jobj_run_destructors. exact H.
 Qed.
 
 Lemma Jobj_emit_neutral : forall e st, c_obj e = None -> d_obj e = None -> Jobj st -> Jobj (emit [e] st).
 Proof. intros e [a b c t] Hc Hd H. unfold Jobj in *; simpl in *. now apply J_neutral1. Qed.
 
-Lemma Jobj_stacks : forall a b c c' t a', Jobj (mk a b c t) -> Jobj (mk a' b c' t).
-Proof. intros; exact H. Qed.
-
-Lemma Jobj_all : forall fuel p ok stf, mrun fuel p = Some (ok, stf) -> Jobj stf.
+Lemma Jobj_register : forall l st, Jobj st -> Jobj (fold_left (fun s e => register_destructor e s) l st).
 Proof.
-  intros fuel p ok stf E.
+  induction l; intros; simpl; auto. apply IHl.
+  destruct st as [a0 b c t]; unfold register_destructor; simpl. destruct b; exact H.
+Qed.
+
+(* one constructor line with the slot it announces: the slot may be missing (no scope) or already flagged *)
+Lemma Jobj_ctor1 : forall a b c c' t ty k, Jobj (mk a b c t) ->
+  (forall k', occ k' (live_ids c') <= occ k' (live_ids c) + (if Nat.eqb k' k then 1 else 0)) ->
+  Jobj (mk a b c' (t ++ [ECtor ty k])).
+Proof. intros. unfold Jobj in *; simpl in *. eapply J_acquire with (k := k); eauto. Qed.
+
+Ltac ifs_lia := simpl; repeat match goal with |- context [if ?b then _ else _] => destruct b end; lia.
+
+Lemma Jobj_all : forall fuel p n0 ok stf, mrun fuel p n0 = Some (ok, stf) -> Jobj stf.
+Proof.
+  intros fuel p n0 ok stf E.
   eapply (mrun_inv Jobj); try exact E.
   - (* declare_obj *)
-    intros k [a b c t] H. rewrite declare_obj_eq. unfold register_destructor; simpl.
-    destruct b as [|l r]; unfold Jobj in *; simpl in *.
-    + eapply J_acquire with (k := k); eauto. intros k'. destruct (k' =? k); lia.
-    + eapply J_acquire with (k := k); eauto. intros k'.
-      rewrite !occ_app, occ_cons, occ_nil. destruct (k' =? k); lia.
+    intros x t k [a b c tr0] H. rewrite declare_obj_eq. unfold register_obj.
+    assert (G : Jobj (emit (map ctor_ev (obj_parts t k)) (bind_obj x t k (mk a b c tr0)))).
+    { unfold bind_obj; simpl. destruct c as [|F Fs]; unfold emit; simpl.
+      - destruct t; simpl.
+        + eapply Jobj_ctor1; eauto. intros; lia.
+        + eapply Jobj_ctor1; eauto. intros; lia.
+        + replace (tr0 ++ [ctor_ev (TR, k + 50); ctor_ev (TW, k)])
+            with ((tr0 ++ [ECtor TR (k + 50)]) ++ [ECtor TW k]) by (now rewrite <- app_assoc).
+          eapply (Jobj_ctor1 a b [] []); [eapply (Jobj_ctor1 a b [] []); [exact H|]|]; intros; lia.
+      - destruct t; simpl.
+        + eapply Jobj_ctor1; eauto. intros k'. rewrite !live_ids_cons, live_ids_f_cons. ifs_lia.
+        + eapply Jobj_ctor1; eauto. intros k'. rewrite !live_ids_cons, live_ids_f_cons. ifs_lia.
+        + replace (tr0 ++ [ctor_ev (TR, k + 50); ctor_ev (TW, k)])
+            with ((tr0 ++ [ECtor TR (k + 50)]) ++ [ECtor TW k]) by (now rewrite <- app_assoc).
+          set (fl := match lookup F (NMem x) with Some (_, b0) => b0 | None => false end).
+          eapply Jobj_ctor1 with (c := ((NMem x, (k + 50, fl)) :: F) :: Fs).
+          * eapply Jobj_ctor1; [exact H|]. intros k'. rewrite !live_ids_cons, live_ids_f_cons.
+            ifs_lia.
+          * intros k'. rewrite !live_ids_cons, !live_ids_f_cons. ifs_lia. }
+    clear H. revert G. generalize (bind_obj x t k (mk a b c tr0)). intros st G.
+    assert (R : forall l s, Jobj (emit (map ctor_ev (obj_parts t k)) s) ->
+                Jobj (emit (map ctor_ev (obj_parts t k)) (fold_left (fun s e => register_destructor e s) l s))).
+    { induction l; intros s Hs; simpl; auto. apply IHl.
+      destruct s as [a1 b1 c1 t1]; unfold register_destructor; simpl. destruct b1; exact Hs. }
+    apply R. exact G.
   - (* defer_stmt *)
     intros k [a b c t] H. unfold defer_stmt, add_defer; simpl.
     assert (Jobj (mk a b c (t ++ [EReg k]))) by (unfold Jobj in *; simpl in *; now apply J_neutral1).
@@ -247,7 +339,7 @@ Proof.
   - apply Jobj_pop_defer.
   - intros [a b c t] H; exact H.
   - intros st H. rewrite pop_scope_unfold. apply Jobj_pop_destructor in H.
-    destruct (pop_destructor_scope st); exact H.
+    destruct (pop_destructor_scope st). now apply Jobj_tl.
   - (* pre_return_cleanup *)
     intros [a b c t] H. unfold pre_return_cleanup; simpl.
     set (st1 := match a with
@@ -259,10 +351,7 @@ Proof.
     assert (Eb : dts st1 = b) by (subst st1; destruct a as [|[|x l] r]; reflexivity).
     destruct st1 as [a1 b1 c1 t1]; simpl in Eb; subst b1; simpl.
     destruct b as [|[|x l] r]; auto.
-    rewrite run_destructors_eq; simpl.
-    unfold Jobj in *; simpl in *.
-    eapply J_release with (dev := EDtor) (m := rev l ++ [x]); eauto using disj_obj.
-    intros k. repeat (rewrite occ_cons || rewrite occ_app || rewrite occ_rev || rewrite occ_nil). destruct (k =? x); lia.
+    apply Jobj_run_destructors. exact H1.
   - intros g a st H. unfold guard_report. destruct (depths_differ a st); auto.
     now apply Jobj_emit_neutral.
   - apply J_init.
@@ -276,8 +365,6 @@ Definition Jdef (st : state) : Prop := J c_def d_def (concat (dfs st)) (tr st).
 Lemma disj_def : forall e k, d_def e = Some k -> c_def e = None.
 Proof. destruct e; simpl; intros; congruence. Qed.
 
-Lemma neutral_dtors_def : forall l e, In e (map EDtor l) -> c_def e = None /\ d_def e = None.
-Proof. intros l e H. apply in_map_iff in H. destruct H as (x & <- & _). auto. Qed.
 
 Lemma Jdef_pop_defer : forall st, Jdef st -> Jdef (pop_defer_scope st).
 Proof.
@@ -287,24 +374,43 @@ Proof.
   intros k. rewrite occ_rev, occ_app. lia.
 Qed.
 
+Lemma Jdef_call_destructor : forall x t st, Jdef st -> Jdef (call_destructor x t st).
+Proof.
+  intros x t [a b c t0] H. rewrite call_destructor_eq; simpl.
+  destruct (find_var c x) as [[k [|]]|]; auto.
+  unfold Jdef in *; simpl in *. now apply J_neutral1.
+Qed.
+
+Lemma Jdef_run_destructors : forall l st, Jdef st -> Jdef (run_destructors l st).
+Proof.
+  intros l. unfold run_destructors. induction (rev l); intros; simpl; auto.
+  apply IHl0. now apply Jdef_call_destructor.
+Qed.
+
 Lemma Jdef_pop_destructor : forall st, Jdef st -> Jdef (pop_destructor_scope st).
 Proof.
   intros st H. apply Jdef_pop_defer in H. unfold pop_destructor_scope.
   destruct (pop_defer_scope st) as [a b c t]; simpl.
   destruct b as [|l r]; [exact H|].
-  rewrite run_destructors_eq. unfold Jdef in *; simpl in *.
-  apply J_neutral; auto. apply neutral_dtors_def.
+  apply Jdef_run_destructors. exact H.
 Qed.
 
 Lemma Jdef_emit_neutral : forall e st, c_def e = None -> d_def e = None -> Jdef st -> Jdef (emit [e] st).
 Proof. intros e [a b c t] Hc Hd H. unfold Jdef in *; simpl in *. now apply J_neutral1. Qed.
 
-Lemma Jdef_all : forall fuel p ok stf, mrun fuel p = Some (ok, stf) -> Jdef stf.
+Lemma Jdef_all : forall fuel p n0 ok stf, mrun fuel p n0 = Some (ok, stf) -> Jdef stf.
 Proof.
-  intros fuel p ok stf E.
+  intros fuel p n0 ok stf E.
   eapply (mrun_inv Jdef); try exact E.
-  - intros k [a b c t] H. rewrite declare_obj_eq. unfold register_destructor; simpl.
-    destruct b as [|l r]; unfold Jdef in *; simpl in *; now apply J_neutral1.
+  - intros x t k [a b c tr0] H. rewrite declare_obj_eq.
+    assert (G : forall s, Jdef s -> Jdef (emit (map ctor_ev (obj_parts t k)) s)).
+    { intros [a0 b0 c0 t0] Hs. unfold Jdef in *; simpl in *. apply J_neutral; auto.
+      intros e He. apply in_map_iff in He. destruct He as (r & <- & _). auto. }
+    apply G. unfold register_obj.
+    assert (R : forall l s, Jdef s -> Jdef (fold_left (fun s e => register_destructor e s) l s)).
+    { induction l; intros s Hs; simpl; auto. apply IHl.
+      destruct s as [a1 b1 c1 t1]; unfold register_destructor; simpl. destruct b1; exact Hs. }
+    apply R. unfold bind_obj; simpl. destruct c; exact H.
   - intros k [a b c t] H. unfold defer_stmt, add_defer; simpl.
     destruct a as [|l r]; unfold Jdef in *; simpl in *.
     + eapply J_acquire with (k := k); eauto. intros k'. destruct (k' =? k); lia.
@@ -329,58 +435,40 @@ Proof.
     assert (Eb : dts st1 = b) by (subst st1; destruct a as [|[|x l] r]; reflexivity).
     destruct st1 as [a1 b1 c1 t1]; simpl in Eb; subst b1; simpl.
     destruct b as [|[|x l] r]; auto.
-    rewrite run_destructors_eq; simpl.
-    unfold Jdef in *; simpl in *. apply J_neutral; auto. apply neutral_dtors_def.
+    apply Jdef_run_destructors. exact H1.
   - intros g a st H. unfold guard_report. destruct (depths_differ a st); auto.
     now apply Jdef_emit_neutral.
   - apply J_init.
 Qed.
 
 (* ------------------------------------------------------------------ readable form *)
-Definition event_eq_dec : forall a b : event, {a = b} + {a <> b}.
-Proof. decide equality; apply Nat.eq_dec. Defined.
+Definition ev_ctor (k : nat) (e : event) : bool := match e with ECtor _ k' => Nat.eqb k k' | _ => false end.
+Definition ev_dtor (k : nat) (e : event) : bool := match e with EDtor _ k' => Nat.eqb k k' | _ => false end.
+Definition ev_reg (k : nat) (e : event) : bool := match e with EReg k' => Nat.eqb k k' | _ => false end.
+Definition ev_defer (k : nat) (e : event) : bool := match e with EDefer k' => Nat.eqb k k' | _ => false end.
+Definition count (f : event -> bool) (t : list event) : nat := length (filter f t).
 
-Definition count (e : event) (t : list event) : nat := count_occ event_eq_dec t e.
-
-Lemma cnt_cons : forall f k e t, cnt f k (e :: t) = (if hit f k e then 1 else 0) + cnt f k t.
-Proof. intros; unfold cnt; simpl. destruct (hit f k e); reflexivity. Qed.
-
-Lemma count_cons : forall e0 e t, count e0 (e :: t) = (if event_eq_dec e e0 then 1 else 0) + count e0 t.
-Proof. intros; unfold count; simpl. destruct (event_eq_dec e e0); reflexivity. Qed.
-
-Ltac cnt_count_tac k t :=
-  let e := fresh "e" in let IH := fresh "IH" in
-  induction t as [|e t IH]; [reflexivity|];
-  rewrite cnt_cons, count_cons, IH; f_equal;
-  match goal with |- context [event_eq_dec e ?e0] => destruct (event_eq_dec e e0) as [->|N] end;
-  [ unfold hit; simpl; now rewrite Nat.eqb_refl
-  | unfold hit; destruct e; simpl; auto;
-    match goal with |- context [k =? ?k0] => destruct (Nat.eqb_spec k k0); [subst; congruence|auto] end ].
-
-Lemma cnt_obj_d : forall k t, cnt d_obj k t = count (EDtor k) t.
-Proof. intros k t. cnt_count_tac k t. Qed.
-
-Lemma cnt_obj_c : forall k t, cnt c_obj k t = count (ECtor k) t.
-Proof. intros k t. cnt_count_tac k t. Qed.
-
-Lemma cnt_def_d : forall k t, cnt d_def k t = count (EDefer k) t.
-Proof. intros k t. cnt_count_tac k t. Qed.
-
-Lemma cnt_def_c : forall k t, cnt c_def k t = count (EReg k) t.
-Proof. intros k t. cnt_count_tac k t. Qed.
-
-Lemma object_at_most_once : forall fuel p ok st, mrun fuel p = Some (ok, st) ->
-  forall t1 t2 k, tr st = t1 ++ t2 -> count (EDtor k) t1 <= count (ECtor k) t1.
+Lemma cnt_count : forall f g k, (forall e, hit f k e = g e) -> forall t, cnt f k t = count g t.
 Proof.
-  intros fuel p ok st E t1 t2 k Et.
-  destruct (Jobj_all fuel p ok st E) as [H _].
-  rewrite <- cnt_obj_d, <- cnt_obj_c. eapply H; eauto.
+  intros f g k H t. unfold cnt, count. f_equal. apply filter_ext. exact H.
 Qed.
 
-Lemma defer_at_most_once : forall fuel p ok st, mrun fuel p = Some (ok, st) ->
-  forall t1 t2 k, tr st = t1 ++ t2 -> count (EDefer k) t1 <= count (EReg k) t1.
+Lemma object_at_most_once : forall fuel p n0 ok st, mrun fuel p n0 = Some (ok, st) ->
+  forall t1 t2 k, tr st = t1 ++ t2 -> count (ev_dtor k) t1 <= count (ev_ctor k) t1.
 Proof.
-  intros fuel p ok st E t1 t2 k Et.
-  destruct (Jdef_all fuel p ok st E) as [H _].
-  rewrite <- cnt_def_d, <- cnt_def_c. eapply H; eauto.
+  intros fuel p n0 ok st E t1 t2 k Et.
+  destruct (Jobj_all fuel p n0 ok st E) as [H _].
+  rewrite <- (cnt_count d_obj (ev_dtor k) k) by (intros []; reflexivity).
+  rewrite <- (cnt_count c_obj (ev_ctor k) k) by (intros []; reflexivity).
+  eapply H; eauto.
+Qed.
+
+Lemma defer_at_most_once : forall fuel p n0 ok st, mrun fuel p n0 = Some (ok, st) ->
+  forall t1 t2 k, tr st = t1 ++ t2 -> count (ev_defer k) t1 <= count (ev_reg k) t1.
+Proof.
+  intros fuel p n0 ok st E t1 t2 k Et.
+  destruct (Jdef_all fuel p n0 ok st E) as [H _].
+  rewrite <- (cnt_count d_def (ev_defer k) k) by (intros []; reflexivity).
+  rewrite <- (cnt_count c_def (ev_reg k) k) by (intros []; reflexivity).
+  eapply H; eauto.
 Qed.
